@@ -151,6 +151,18 @@ func runC12(p *Program, r *Result) {
 	}
 
 	// ---- R12.4
+	// ---- R12.6: the payload is what follows the header whatever reader the caller supplied
+	r.Rule("R12.6", "the bytes the header parser read ahead are handed back in front of the payload, for buffered and unbuffered sources alike (= R07.3)", 2)
+	if pf := r.anchor(pkgFormat, "", "Parse"); pf != nil {
+		var succ []*ssa.Return
+		for _, ret := range returnsOf(pf) {
+			if isNilConst(resultsOf(ret)[2]) {
+				succ = append(succ, ret)
+			}
+		}
+		checkPayloadHandBack(p, r, pf, succ, p.TB(pf))
+	}
+
 	// ---- R12.5: decryption is incremental
 	r.Rule("R12.5", "a Read call decrypts at most one chunk: what has been authenticated is released before more input is consumed", 1)
 	if rd, rc := r.anchor(pkgStream, "Reader", "Read"), r.anchor(pkgStream, "Reader", "readChunk"); rd != nil && rc != nil {
